@@ -40,7 +40,19 @@ func c06Empty(t *rapid.T) []kit.Argv {
 	k := pick(t, "k", "a", "b", "c")
 	other := pick(t, "o", "a", "b", "c", "kl", "kz")
 	out := []kit.Argv{kit.A("DEL", k)}
-	switch rapid.IntRange(0, 13).Draw(t, "how") {
+	switch rapid.IntRange(0, 19).Draw(t, "how") {
+	case 14: // a STORE whose result is empty although the source is not: an empty LIMIT window
+		out = append(out, kit.A("RPUSH", k, "x"), kit.A("SORT", pick(t, "srtsrc", "kl", "kz", "kl1"), "ALPHA", "LIMIT", pick(t, "lo", "5", "100", "0", "1"), pick(t, "cnt", "0", "3", "0"), "STORE", k))
+	case 15:
+		out = append(out, kit.A("SET", k, "old"), kit.A("PEXPIREAT", k, "4102444800000"), kit.A("SORT", "kl", "LIMIT", "9", "9", "ALPHA", "STORE", k), kit.A("PEXPIRETIME", k))
+	case 16: // set algebra with an empty result over non-empty operands
+		out = append(out, kit.A("SADD", k, "only-here"), kit.A("SINTERSTORE", k, k, "kz"))
+	case 17:
+		out = append(out, kit.A("SADD", k, "1", "2"), kit.A("SDIFFSTORE", k, k, "kz", k))
+	case 18: // BITOP whose result is the empty string
+		out = append(out, kit.A("SET", k, "x"), kit.A("BITOP", "AND", k, "kmiss", "kmiss2"))
+	case 19:
+		out = append(out, kit.A("RPUSH", k, "x", "y", "z"), kit.A("LPOP", k, "3"))
 	case 0:
 		out = append(out, kit.A("RPUSH", k, "x"), kit.A("LPOP", k))
 	case 1:
